@@ -27,7 +27,7 @@ from sim.fingerprint import _canon_scalar, obs_equal, observe
 from sim.world import Session, classify, exc_detail, exc_signature, reference_world
 
 PROPERTY = "C18"
-SESSIONS = {"quick": 200, "thorough": 6000}
+SESSIONS = {"quick": 200, "thorough": 650}
 BUDGET_S = {"quick": 80, "thorough": 1500}
 CAP_S = {"quick": 240, "thorough": 480}
 URL = "simfs://bucket/ds"
